@@ -20,6 +20,7 @@ from __future__ import annotations
 import json
 
 import torch
+import torch.nn as nn
 
 from .. import core, rig
 from . import c01_arch as A
@@ -58,6 +59,8 @@ THEOREMS = [
     "Opacus.GSM.step_fwd",
     "Opacus.GSM.step_bwd",
     "Opacus.GSM.accRows_closed",
+    "Opacus.C01.hooked_cover",
+    "Opacus.HookCover.cover",
 ]
 RULE = (
     "sampler case = (layer type, hyper-parameters, requires_grad pattern, shapes incl. N=0 and extra middle axes, memory layout of "
@@ -219,6 +222,131 @@ def run_sampler_cases(ctx, n, variant):
             ctx.mismatch(c["comp"], c["sample"], impl, rep[:2000], oracle=case_oracle, note="driver line: " + c["line"][:1500])
 
 
+# --------------------------------------------------------------------------- GradSampleModule bookkeeping machine
+def run_machine(ctx, n):
+    """hook traces of real GradSampleModules (sequential / reused / partly frozen / DPRNN-relu models with integer
+    weights) drive the Lean machine `Opacus.GSM` (driver C01m); the complete observable bookkeeping state is
+    compared after every script step (this is the tie of `hooks_pairing` to the code)"""
+    from . import c01_machine as M
+
+    cases, lines, spans = [], [], []
+    for _ in range(n):
+        spec, script = M.gen_case(ctx.rng)
+        try:
+            ls, expect, info = M.run_case(spec, script)
+        except AssertionError as e:   # non-integer tensor: the exact channel does not apply to this case
+            ctx.count("machine:skipped:" + str(e)[:40])
+            continue
+        spans.append((len(lines), len(lines) + len(ls)))
+        lines += ls
+        cases.append((spec, script, expect, info))
+    replies = ctx.lean_driver("C01m", lines)
+    for (spec, script, expect, info), (a, b) in zip(cases, spans):
+        rep = replies[a:b]
+        bad = next((k for k, (x, y) in enumerate(zip(rep, expect)) if " ".join(x.split()) != " ".join(y.split())), None)
+        nt = info["events"] >= 4 and (info["tied"] or info["max_stack"] >= 2 or len(script) >= 3 or bool(info["errors"]))
+        ctx.case(("machine", json.dumps(spec["layers"], sort_keys=True), spec.get("batch_first", True), spec["reduction"], spec["B"], tuple(script), bool(spec.get("packed"))),
+                 nontrivial=nt, sample={"component": "gsm-machine", "layers": spec["layers"], "script": script, "reduction": spec["reduction"]} , kind="machine:" + ("packed" if spec.get("packed") else spec["kind"]))
+        ctx.count("machine:events", info["events"])
+        for e in info["errors"]:
+            ctx.count("machine:" + e)
+        if info["tied"]:
+            ctx.count("machine:tied-or-reused")
+        if bad is None:
+            ctx.validated()
+        else:
+            ctx.mismatch("gsm-machine", {"spec": spec, "script": script}, expect[bad][:1500], rep[bad][:1500],
+                         oracle=lambda c: machine_oracle(c["spec"]), note=f"first differing driver reply #{bad}: request {lines[a + bad][:300]!r}")
+
+
+# --------------------------------------------------------------------------- which modules are hooked (driver C01h)
+def gen_cover_tree(rng, depth=0):
+    """random torch module tree over: registered-sampler leaves (Linear, LayerNorm, Conv1d, Embedding), custom
+    modules with own parameters (functorch units, possibly with children), subclasses of registered types,
+    parameter-less containers, DPLSTM / DPGRU wrappers, partly or wholly frozen modules"""
+    from opacus.layers import DPGRU, DPLSTM
+
+    class Own(nn.Module):        # custom module with own parameters (and children): one functorch unit
+        def __init__(self, kids):
+            super().__init__()
+            self.w = nn.Parameter(torch.zeros(2))
+            self.kids = nn.ModuleList(kids)
+
+    class Bag(nn.Module):        # parameter-less custom container
+        def __init__(self, kids):
+            super().__init__()
+            for i, k in enumerate(kids):
+                setattr(self, f"k{i}", k)
+
+    class MyLinear(nn.Linear):   # subclass of a registered type: exact-type lookup ⇒ functorch unit
+        pass
+
+    r = rng.random()
+    if depth >= 3 or r < 0.45:
+        k = rng.choice(["Linear", "Linear", "LayerNorm", "Conv1d", "Embedding", "MyLinear", "Own0", "DPLSTM", "DPGRU", "ReLU"])
+        m = {"Linear": lambda: nn.Linear(2, 2, bias=rng.random() < 0.7), "LayerNorm": lambda: nn.LayerNorm(2), "Conv1d": lambda: nn.Conv1d(2, 2, 1),
+             "Embedding": lambda: nn.Embedding(3, 2), "MyLinear": lambda: MyLinear(2, 2), "Own0": lambda: Own([]),
+             "DPLSTM": lambda: DPLSTM(2, 2, num_layers=rng.choice([1, 2]), bidirectional=rng.random() < 0.3),
+             "DPGRU": lambda: DPGRU(2, 2), "ReLU": lambda: nn.ReLU()}[k]()
+    else:
+        kids = [gen_cover_tree(rng, depth + 1) for _ in range(rng.randint(1, 3))]
+        m = rng.choice([lambda: nn.Sequential(*kids), lambda: Own(kids), lambda: Bag(kids), lambda: nn.ModuleList(kids)])()
+    fr = rng.random()
+    if fr < 0.12:
+        for p in m.parameters(recurse=False):
+            p.requires_grad_(False)
+    elif fr < 0.2:
+        for p in list(m.parameters(recurse=False))[:1]:
+            p.requires_grad_(False)
+    return m
+
+
+def run_hook_cover(ctx, n):
+    """`hooked_cover`: the units the real GradSampleModule hooks, and the parameters each serves, vs `HookCover.units`"""
+    from opacus.grad_sample import GradSampleModule
+    from opacus.layers import DPGRU, DPLSTM, DPRNN
+
+    cases, lines = [], []
+    for _ in range(n):
+        m = nn.Sequential(gen_cover_tree(ctx.rng), gen_cover_tree(ctx.rng))
+        ids = {id(p): i for i, p in enumerate(q for q in m.parameters() if q.requires_grad)}
+        if not ids:
+            continue
+        gsm = GradSampleModule(m, strict=False)
+
+        def enc(mod):
+            own = [ids[id(p)] for p in mod.parameters(recurse=False) if p.requires_grad]
+            kids = list(mod.children())
+            return [str(len(own))] + [str(i) for i in own] + [str(int(type(mod) in gsm.GRAD_SAMPLERS)), str(int(type(mod) in (DPRNN, DPLSTM, DPGRU))), str(len(kids))] + [t for k in kids for t in enc(k)]
+
+        hook_fn = getattr(gsm.capture_activations_hook, "__func__", None)
+        real = []
+        for mod in m.modules():
+            if any(getattr(h, "__func__", None) is hook_fn for h in mod._forward_hooks.values()):
+                ps = mod.parameters() if hasattr(mod, "ft_compute_sample_grad") else mod.parameters(recurse=False)
+                real.append([ids[id(p)] for p in ps if p.requires_grad])
+        lines.append("tree " + " ".join(enc(m)))
+        cases.append((m, real, len(ids)))
+        gsm._close() if False else None
+    replies = ctx.lean_driver("C01h", lines)
+    for (m, real, P), rep, line in zip(cases, replies, lines):
+        want = f"wf=1 units {len(real)} | " + " | ".join(" ".join(map(str, u)) for u in real) + " ; all " + " ".join(map(str, range(P)))
+        ft = any(hasattr(x, "ft_compute_sample_grad") for x in m.modules())
+        ctx.case(("cover", line), nontrivial=len(real) >= 2, sample={"component": "hook-cover", "tree": repr(m)[:300]} if ft else None, kind="cover:" + ("functorch-unit" if ft else "samplers-only"))
+        if " ".join(rep.split()) == " ".join(want.split()):
+            ctx.validated()
+        else:
+            ctx.mismatch("hook-cover", {"tree": repr(m)[:1500], "driver_line": line}, want, rep, oracle=None,
+                         note="units hooked by GradSampleModule (module order; parameters by named_parameters index) differ from HookCover.units")
+
+
+def machine_oracle(spec):
+    try:
+        return A.oracle(spec)
+    except A.Rejected:
+        return None
+
+
 # --------------------------------------------------------------------------- search
 def run_search(ctx, n, allow_defects=True):
     for _ in range(n):
@@ -251,6 +379,8 @@ def run(ctx):
             ctx.count("witness:" + did + (":fails" if res else ":holds"))
             if res:
                 ctx.property_failure(res[0], res[1], dict(res[2], failing_input=spec, lean_witness=WITNESS.get(did)))
+        run_machine(ctx, ctx.n(60, 1500))
+        run_hook_cover(ctx, ctx.n(80, 2000))
         run_search(ctx, ctx.n(250, 6000))
 
 
